@@ -216,11 +216,84 @@ def body_exponential(n):
     return body, [ExponentialCoalescent.log_prob]
 
 
+def body_plinear(n, G):
+    from torchtree.evolution.coalescent import PiecewiseLinearCoalescentGrid
+
+    def body(t, V, W):
+        d = t.dag
+        h, S, C = _heights(V, W, n, t)
+        theta = _vec(V, [f'theta{k}' for k in range(G + 1)])
+        grid = _vec(V, [f'g{k}' for k in range(G)])
+        impl = PiecewiseLinearCoalescentGrid(theta, grid, validate_args=False).log_prob(h)
+        th = [mkfloat(V[f'theta{k}']) for k in range(G + 1)]
+        gr = [0.0] + [mkfloat(V[f'g{k}']) for k in range(G)]
+
+        # documented N(t): linear between (g_p, theta_p) and (g_{p+1}, theta_{p+1}), constant theta_G after the last point
+        def N(p, x):
+            if p >= G:
+                return th[G]
+            return th[p] + (th[p + 1] - th[p]) * (x - gr[p]) / (gr[p + 1] - gr[p])
+
+        def integ(p, a, b):
+            if p >= G:
+                return (b - a) / th[G]
+            na, nb = N(p, a), N(p, b)
+            if nb == na:  # symbolic comparison -> path condition (flat piece)
+                return (b - a) / na
+            return (b - a) * (sym_log(nb) - sym_log(na)) / (nb - na)
+
+        orc = kingman_oracle(S, C, gr[1:], integ, lambda p, c: sym_log(N(p, c)))
+        goal = d.eq(int(impl._ids.reshape(-1)[0]), SymFloat._id(orc))
+        return [Goal('piecewise-linear: log_prob == Kingman', goal, hyps=ground_axioms(d, [goal]),
+                     signature='PiecewiseLinearCoalescentGrid.log_prob')]
+
+    return body, [PiecewiseLinearCoalescentGrid.log_prob]
+
+
+def body_pexp(n, G):
+    from torchtree.evolution.coalescent import PiecewiseExponentialCoalescentGrid
+
+    def body(t, V, W):
+        d = t.dag
+        h, S, C = _heights(V, W, n, t)
+        theta = _vec(V, [f'theta{k}' for k in range(G + 1)])
+        growth = _vec(V, [f'growth{k}' for k in range(G + 1)])
+        grid = _vec(V, [f'g{k}' for k in range(G)])
+        try:
+            impl = PiecewiseExponentialCoalescentGrid(theta, growth, grid, validate_args=False).log_prob(h)
+        except RuntimeError as e:
+            return [Goal(f'piecewise-exponential: log_prob evaluates (raised {type(e).__name__}: {str(e)[:80]})', d.FALSE,
+                         signature='PiecewiseExponentialCoalescentGrid.log_prob:raises')]
+        th = [mkfloat(V[f'theta{k}']) for k in range(G + 1)]
+        gw = [mkfloat(V[f'growth{k}']) for k in range(G + 1)]
+        gr = [0.0] + [mkfloat(V[f'g{k}']) for k in range(G)]
+
+        # documented N(t): N(g_p) continuous, N(t) = N(g_p) exp(-growth_p (t - g_p)) on piece p, N(0) = theta_0 ... the
+        # shipped parameterisation gives theta_p as the population size at the START of piece p
+        def N0(p):
+            return th[p]
+
+        def logN(p, c):
+            return sym_log(N0(p)) - gw[p] * (c - gr[p])
+
+        def integ(p, a, b):
+            return (sym_exp(gw[p] * (b - gr[p])) - sym_exp(gw[p] * (a - gr[p]))) / (N0(p) * gw[p])
+
+        orc = kingman_oracle(S, C, gr[1:], integ, logN)
+        goal = d.eq(int(impl._ids.reshape(-1)[0]), SymFloat._id(orc))
+        return [Goal('piecewise-exponential: log_prob == Kingman', goal, hyps=ground_axioms(d, [goal]),
+                     signature='PiecewiseExponentialCoalescentGrid.log_prob')]
+
+    return body, [PiecewiseExponentialCoalescentGrid.log_prob]
+
+
 MODELS = {
     'constant': dict(mk=lambda n, G: body_constant(n), ntheta=lambda n, G: 1),
     'skyride': dict(mk=lambda n, G: body_skyride(n), ntheta=lambda n, G: n - 1),
     'skygrid': dict(mk=lambda n, G: body_skygrid(n, G), ntheta=lambda n, G: G + 1),
     'exponential': dict(mk=lambda n, G: body_exponential(n), ntheta=lambda n, G: 1, growth=True),
+    'plinear': dict(mk=lambda n, G: body_plinear(n, G), ntheta=lambda n, G: G + 1, grid=True),
+    'pexp': dict(mk=lambda n, G: body_pexp(n, G), ntheta=lambda n, G: G + 1, grid=True, growths=True),
 }
 
 
@@ -230,14 +303,20 @@ def run_task(task, tr):
     body, fns = spec['mk'](n, G)
     tr.fn(*fns)
     ntheta = spec['ntheta'](n, G)
-    W = initial_witness(n, perm, G if model == 'skygrid' else 0, ntheta, growth=spec.get('growth', False))
+    has_grid = model == 'skygrid' or spec.get('grid')
+    W = initial_witness(n, perm, G if has_grid else 0, ntheta, growth=spec.get('growth', False))
+    if spec.get('growths'):
+        for k in range(G + 1):
+            W[f'growth{k}'] = 0.3 + 0.2 * k
 
     def domain(d, V):
         extra = order_constraint(d, V, perm)
-        for g in range(G if model == 'skygrid' else 0):
+        for g in range(G if has_grid else 0):
             extra.append(d.lt(0, V[f'g{g}']))
             if g:
-                extra.append(d.le(V[f'g{g-1}'], V[f'g{g}']))
+                extra.append((d.lt if model in ('plinear', 'pexp') else d.le)(V[f'g{g-1}'], V[f'g{g}']))
+        if spec.get('growths'):
+            extra += [d.not_(d.eq(V[f'growth{k}'], 0)) for k in range(G + 1)]
         if spec.get('growth'):
             extra.append(d.not_(d.eq(V['growth'], 0)))
         return coalescent_domain(d, V, n, extra)
@@ -274,6 +353,31 @@ def numeric_oracle(model, n, G, vals):
         th, g = vals['theta0'], vals['growth']
         return kingman_oracle(S, C, [], lambda p, a, b: (math.exp(g * b) - math.exp(g * a)) / (th * g),
                               lambda p, c: math.log(th) - g * c)
+    if model == 'plinear':
+        th = [vals[f'theta{k}'] for k in range(G + 1)]
+        gr = [0.0] + [vals[f'g{k}'] for k in range(G)]
+
+        def N(p, x):
+            if p >= G:
+                return th[G]
+            return th[p] + (th[p + 1] - th[p]) * (x - gr[p]) / (gr[p + 1] - gr[p])
+
+        def integ(p, a, b):
+            if p >= G:
+                return (b - a) / th[G]
+            na, nb = N(p, a), N(p, b)
+            if abs(nb - na) < 1e-14:
+                return (b - a) / na
+            return (b - a) * (math.log(nb) - math.log(na)) / (nb - na)
+
+        return kingman_oracle(S, C, gr[1:], integ, lambda p, c: math.log(N(p, c)))
+    if model == 'pexp':
+        th = [vals[f'theta{k}'] for k in range(G + 1)]
+        gw = [vals[f'growth{k}'] for k in range(G + 1)]
+        gr = [0.0] + [vals[f'g{k}'] for k in range(G)]
+        return kingman_oracle(S, C, gr[1:],
+                              lambda p, a, b: (math.exp(gw[p] * (b - gr[p])) - math.exp(gw[p] * (a - gr[p]))) / (th[p] * gw[p]),
+                              lambda p, c: math.log(th[p]) - gw[p] * (c - gr[p]))
     raise KeyError(model)
 
 
@@ -293,6 +397,13 @@ def real_value(model, n, G, vals):
     if model == 'exponential':
         return float(co.ExponentialCoalescent(torch.tensor([vals['theta0']], dtype=torch.float64),
                                               torch.tensor([vals['growth']], dtype=torch.float64)).log_prob(h))
+    if model in ('plinear', 'pexp'):
+        th = torch.tensor([vals[f'theta{k}'] for k in range(G + 1)], dtype=torch.float64)
+        gr = torch.tensor([vals[f'g{k}'] for k in range(G)], dtype=torch.float64)
+        if model == 'plinear':
+            return float(co.PiecewiseLinearCoalescentGrid(th, gr).log_prob(h))
+        gw = torch.tensor([vals[f'growth{k}'] for k in range(G + 1)], dtype=torch.float64)
+        return float(co.PiecewiseExponentialCoalescentGrid(th, gw, gr).log_prob(h))
     raise KeyError(model)
 
 
@@ -311,10 +422,11 @@ def replay(model, n, G, vals):
 def tasks_for(tier):
     ts = []
     if tier == 'quick':
-        plan = [('constant', 3, 0, 60), ('skyride', 3, 0, 60), ('skygrid', 3, 1, 120), ('exponential', 3, 0, 60)]
+        plan = [('constant', 3, 0, 60), ('skyride', 3, 0, 60), ('skygrid', 3, 1, 120), ('exponential', 3, 0, 60),
+                ('pexp', 3, 1, 60)]
     else:
         plan = [('constant', 4, 0, 400), ('skyride', 4, 0, 400), ('skygrid', 3, 2, 400), ('skygrid', 4, 1, 800),
-                ('exponential', 4, 0, 400)]
+                ('exponential', 4, 0, 400), ('plinear', 3, 2, 600), ('pexp', 3, 1, 60)]
     for model, n, G, budget in plan:
         for perm in itertools.permutations(range(n)):
             ts.append((model, n, G, perm, budget))
